@@ -1,5 +1,6 @@
 import PedVerif.Drv.Checker
 import PedVerif.Spec.CallLayer
+import PedVerif.Model.CallLayerIR
 namespace PedVerif.Drv.CallLayer
 open Lean PedVerif.Drv PedVerif.Checker PedVerif.Call PedVerif.Drv.Checker
 
@@ -29,6 +30,16 @@ def pBody (j : Json) : BodyOut :=
   | "raises" => .raises (jN (jAt j 1))
   | _ => .ret (parseVal (jAt j 1))
 
+/-- formatting a value raises: an instance of one of the listed classes, or a container that holds one (`str()` of a container uses `repr()`
+    of its elements; the pending items of a one-shot iterator are not touched) -/
+partial def upOf (cls : List Nat) : Val → Bool
+  | .inst c => cls.contains c
+  | .coll _ xs => xs.any (upOf cls)
+  | .tup _ xs => xs.any (upOf cls)
+  | .ntup _ _ xs => xs.any (upOf cls)
+  | .mapping _ kvs => kvs.any fun kv => upOf cls kv.1 || upOf cls kv.2
+  | _ => false
+
 def callerStr : Caller → String
   | .ret => "RET" | .retGen => "RETGEN" | .pedCallWithArgs => "PED:CallWithArgs" | .pedTypeCheck => "PED:TypeCheck"
   | .pedTVMismatch => "PED:TypeVarMismatch" | .bodyExc e => s!"BODY_EXC:{e}" | .bindTypeError => "BIND:TypeError"
@@ -43,8 +54,15 @@ def handle (c : Json) : Json :=
   let kw := (jL (jF c "kw")).map fun p => (jN (jAt p 0), parseVal (jAt p 1))
   let body := pBody (jF c "body")
   let r := runCall env (fun _ _ => .raisedOther) f args kw body
+  -- the interpretation of the translated wrapper body (Model/CallLayerIR.lean): its result and the path it took
+  let w : PedVerif.CallIR.World := { tvm := jB (jF (jF c "world") "tvm"), selfBound := jB (jF (jF c "world") "selfBound") }
+  let unp := (jL (jF c "unprintable")).map jN
+  let irt := PedVerif.CallIR.runCallTraced env (fun _ _ => .raisedOther) f args kw body w (upOf unp)
+  let ir := irt.1
   mkObj [("caller", jStr (callerStr r.caller)), ("ran", jBool r.bodyRan),
          ("fwdPos", jArr (r.fwdPos.map jNat)), ("fwdKw", jArr (r.fwdKw.map jNat)),
+         ("ir", mkObj [("caller", jStr (callerStr ir.caller)), ("ran", jBool ir.bodyRan), ("fwdPos", jArr (ir.fwdPos.map jNat)), ("fwdKw", jArr (ir.fwdKw.map jNat))]),
+         ("interpTrace", jArr (irt.2.map jNat)),
          ("spec", mkObj [("truthful", jBool (truthful f t)), ("anyNonConforming", jBool (anyNonConforming env f args kw)),
                          ("badProduced", jBool (badProduced env f body)), ("positionalBad", jBool (positionalBad env f t args)), ("positionalPrefixBad", jBool (positionalPrefixBad env f t args kw)), ("badStarSpec", jBool (badStarSpec env f t args)), ("allConforming", jBool (allConforming env f args kw body)),
                          ("incompleteParam", jBool (incompleteParam f)), ("incompleteReturn", jBool (incompleteReturn f)),
@@ -56,6 +74,10 @@ def handle (c : Json) : Json :=
          ("regions", jArr ((
             (if !truthful f t then ["untruthful"] else []) ++ (if f.clazzFails args then ["clazzFails"] else []) ++
             (if regionStripped f t args then ["stripped"] else []) ++
+            (if regionReceiverNotNamedSelf f t args then ["receiverNotNamedSelf"] else []) ++
+            (if positionalForDefaultedBad env f t args then ["positionalForDefaulted"] else []) ++
+            (if f.firstIsSelf && args.isEmpty then ["receiverByKeyword"] else []) ++
+            (if ir.caller == .escape "format" then ["unprintableFormat"] else []) ++
             (if args.any Val.hasNT || kw.any (fun kv => kv.2.hasNT) || f.params.any (fun p => match p.dflt with | some d => d.hasNT | none => false)
                 || (match body with | .ret r => r.hasNT | _ => false) then ["namedtuple"] else []) ++
             (if args.any Val.hasIter || kw.any (fun kv => kv.2.hasIter) || f.params.any (fun p => match p.dflt with | some d => d.hasIter | none => false)
